@@ -226,6 +226,28 @@ func ExecuteC19(t *testing.T, plan *Plan) *RunResult {
 			dest := filepath.Join(dir, "dest")
 			os.MkdirAll(dest, 0o755)
 			_, _, opErr = dl.DownloadTo(ref, "1.0.0", dest)
+		case "dl-seq":
+			// one set of providers (getter.All, as every command builds it) serves several downloads in turn, each through a
+			// downloader of its own, the way the dependency manager does: a private repository first, then a public one
+			getter.VerifSetDefaultTransport(n.Transport)
+			defer getter.VerifSetDefaultTransport(nil)
+			cfg, cache := writeRepoFiles(dir, n, spec, true)
+			settings := cli.New()
+			settings.RepositoryConfig = cfg
+			settings.RepositoryCache = cache
+			settings.PluginsDirectory = filepath.Join(dir, "no-plugins")
+			shared := getter.All(settings)
+			for i, r := range spec.Repos {
+				dl := downloader.ChartDownloader{Out: io.Discard, Getters: shared, RepositoryConfig: cfg, RepositoryCache: cache, Verify: downloader.VerifyNever}
+				if spec.Verify {
+					dl.Verify = downloader.VerifyIfPossible
+				}
+				dest := filepath.Join(dir, fmt.Sprintf("dest%d", i))
+				os.MkdirAll(dest, 0o755)
+				if _, _, err := dl.DownloadTo(r.Name+"/"+r.Chart, "1.0.0", dest); err != nil && opErr == nil {
+					opErr = err
+				}
+			}
 		case "locate":
 			getter.VerifSetDefaultTransport(n.Transport)
 			defer getter.VerifSetDefaultTransport(nil)
@@ -300,7 +322,9 @@ func ExecuteC19(t *testing.T, plan *Plan) *RunResult {
 	}
 	credOwner := map[string]*RepoSpec{}
 	for i := range spec.Repos {
-		credOwner[spec.Repos[i].User+":"+spec.Repos[i].Pass] = &spec.Repos[i]
+		if spec.Repos[i].User != "" {
+			credOwner[spec.Repos[i].User+":"+spec.Repos[i].Pass] = &spec.Repos[i]
+		}
 	}
 	sent, own := 0, 0
 	var outcome []string
@@ -382,8 +406,11 @@ var c19Hosts = []string{"repo1.example.com", "charts.corp.example", "r.test"}
 func genC19(seed, index uint64, tier string) *Plan {
 	g := NewGen(seed, index, 19)
 	p := &Plan{Check: "C19", Seed: seed, Index: index, Backend: "none"}
-	spec := &NetSpec{Path: g.Pick("getter", "dl-ref", "dl-url", "locate", "manager", "pull", "manager-build")}
+	spec := &NetSpec{Path: g.Pick("getter", "dl-ref", "dl-url", "locate", "manager", "pull", "manager-build", "dl-seq")}
 	nrepos := 1
+	if spec.Path == "dl-seq" {
+		nrepos = 2 + g.N(2)
+	}
 	if spec.Path == "manager" || spec.Path == "manager-build" {
 		nrepos = 1 + g.N(3)
 	}
@@ -463,6 +490,9 @@ func genC19(seed, index uint64, tier string) *Plan {
 			case 3:
 				r.Redirect = other + "://" + host + "/redirected" + file
 			}
+		}
+		if spec.Path == "dl-seq" && i > 0 && g.Chance(0.7) {
+			r.User, r.Pass, r.PassAll = "", "", false // a public repository, asked after a private one
 		}
 		spec.Repos = append(spec.Repos, r)
 	}
